@@ -16,8 +16,8 @@ CLAIMS={
    technique="contract-based deductive verification: VCs from go/ssa with loops cut at quantified invariants, mathematical integers with discharged overflow obligations, z3/cvc5; counterexamples replayed via go test -overlay",
    design="5 (C09)"),
  "C02": dict(
-   text="The pixel test is proved exact: lineIntersects(l, e) == exists t in [0,1]: l(t) in the half-open pixel e, for all integer segments and pixels (witness for the positive answer, arbitrary t for the negative one, int64 relaxed to reals; cmpFrac proved over the integers with 128-bit products). findIntersectingQuadrants is proved to return exactly the occupied children of a parent pixel whose half-open square the closed edge meets, without duplicates, from eight geometric lemmas that are themselves proved from the definition of meets. The defect F1 (ties decided wrongly in both directions) was demonstrated on the real code and repaired by an exact integer clipping.",
-   note="Trusted: go/ssa semantics and gvc's translation, the SMT solvers (nonlinear real arithmetic: effectively the two z3 versions), bits.Mul64 contract, the two defining axioms of meets (skolemised exists). NOT decided by this check (stated in the evidence): the level-by-level descent of snapClosestPoints, the order of travel of the returned centres, and the second sentence of the property (concatenation of routed edges). A bounded lattice cross-check of the specification runs as an extra and is not counted as proved.",
+   text="The pixel test is proved exact: lineIntersects(l, e) == exists t in [0,1]: l(t) in the half-open pixel e, for all integer segments and pixels (witness for the positive answer, arbitrary t for the negative one, int64 relaxed to reals; cmpFrac proved over the integers with 128-bit products). findIntersectingQuadrants is proved to return exactly the occupied children of a parent pixel whose half-open square the closed edge meets, without duplicates, from eight geometric lemmas that are themselves proved from the definition of meets. The level-by-level descent snapClosestPoints is proved sound and complete: for every requested level the list it returns holds exactly the stored pixels of that level that the edge meets (ghost set views of the lists, the quadtree's representation invariant as precondition - established by FromTileMatrixSet and proved to be preserved by insertCoord / InsertCoord / InsertPoint / InsertPolygon), and SnapClosestPoints returns their centres position by position; cleanupNewVertices joins consecutive edges without the duplicate. The defect F1 (ties decided wrongly in both directions) was demonstrated on the real code and repaired by an exact integer clipping.",
+   note="Trusted: go/ssa semantics and gvc's translation, the SMT solvers (nonlinear real arithmetic: effectively the two z3 versions), bits.Mul64 contract, the two defining axioms of meets (skolemised exists). NOT decided by this check (stated in the evidence): the order of travel of the returned centres (only the bounded stand-in descent-lattice) and the second sentence of the property (concatenation of routed edges through the ring assembly). The descent contracts need a round grid (extent = whole number of deepest pixels). Two bounded lattice cross-checks run as extras and are not counted as proved.",
    technique="contract-based deductive verification: VCs from go/ssa, existential specification handled by witnesses and skolemisation, opaque predicate + proved lemma instances, z3/cvc5",
    design="5 (C02)"),
  "C14": dict(
@@ -32,7 +32,7 @@ CLAIMS={
    design="5 (C15)"),
  "C08": dict(
    text="First sentence, proved for all inputs: SnapPolygon's result is keyed by requested tile matrix ids only (every key is an element of tmIDs), each key carries exactly what addPointsAndSnap computed for that id's level (level = id + log2(tile width) + 4, proved injective through tileMatrixIDsByLevels), and every level addPointsAndSnap returns is a requested one (loop invariants over the shared levelMap from which levels are deleted). Per call it is also proved that the list of pixels the descent hands out for a level is exactly the set of stored pixels of that level met by the edge (contracts of C02), and the verifier's alias discipline rejects any append to a slice shared between levels. The second sentence (same geometry whether a tile matrix is requested alone or with others) relates two executions and is NOT decided; a bounded stand-in (descent on a 4x4 grid for several level combinations) runs as an extra.",
-   note="Trusted: go/ssa semantics and gvc's translation, SMT solvers, slices.Max / errors.As / maps.Keys assumed contracts, ring assembly leaves (cleanupNewRing, dedupeInnersOuters, matchInnersToPolygons, outersToPolygons, ensureCorrectWindingOrder) trusted for lengths only. insertCoord's representation invariants are assumed postconditions. Preconditions of SnapPolygon's contract: ids in [0,1000], indexable tile matrix set with level <= 32, round grid, |ordinate| < 2e8.",
+   note="Trusted: go/ssa semantics and gvc's translation, SMT solvers, slices.Max / errors.As / maps.Keys assumed contracts, ring assembly leaves (cleanupNewRing, dedupeInnersOuters, matchInnersToPolygons, outersToPolygons, ensureCorrectWindingOrder) trusted for lengths only. Preconditions of SnapPolygon's contract: ids in [0,1000], indexable tile matrix set with level <= 32, round grid, |ordinate| < 2e8.",
    technique="contract-based deductive verification: VCs from go/ssa, quantified loop invariants over maps and map-range iterators, z3/cvc5; bounded stand-in labelled",
    design="5 (C08)"),
  "C05": dict(
@@ -41,7 +41,7 @@ CLAIMS={
    technique="contract-based deductive verification: VCs from go/ssa with quantified invariants over maps, z3/cvc5",
    design="5 (C05)"),
  "C03": dict(
-   text="Proved chain, for all inputs under the stated preconditions: FromTileMatrixSet builds the index on the bounding box of tile matrix 0 with level = id + log2(tile width) + 4 and integer pixel size span / 2^level; every stored pixel of level l carries the extent and centre min + k*span_l (+ span_l/2) of the grid formula (invariant indexGrid, preserved by InsertPoint / InsertCoord / InsertPolygon; for insertCoord itself it is an ASSUMED postcondition); SnapClosestPoints hands out, position by position, centre/1e10 of stored pixels of the requested level met by the edge; tileMatrixIDsByLevels and SnapPolygon map levels back to exactly the requested ids. MatrixBoundingBox / MatrixSize / ToXYPoint are proved against the cell size arithmetic (C15). NOT decided: that the ring assembly only rearranges or drops those coordinates, and the second sentence (deviation bound for grids that do not divide evenly).",
+   text="Proved chain, for all inputs under the stated preconditions: FromTileMatrixSet builds the index on the bounding box of tile matrix 0 with level = id + log2(tile width) + 4 and integer pixel size span / 2^level; every stored pixel of level l carries the extent and centre min + k*span_l (+ span_l/2) of the grid formula (invariant indexGrid, established by FromTileMatrixSet and proved to be preserved by insertCoord - loop invariants 'every stored pixel is the grid's function of its level and key' and 'the parent of a stored pixel is stored', products kept opaque and revealed through arithmetic lemmas - and by InsertCoord / InsertPoint / InsertPolygon); SnapClosestPoints hands out, position by position, centre/1e10 of stored pixels of the requested level met by the edge; tileMatrixIDsByLevels and SnapPolygon map levels back to exactly the requested ids. MatrixBoundingBox / MatrixSize / ToXYPoint are proved against the cell size arithmetic (C15). NOT decided: that the ring assembly only rearranges or drops those coordinates, and the second sentence (deviation bound for grids that do not divide evenly).",
    note="Trusted: as for C08; float64 as reals (centre/1e10 exact). A bounded stand-in (descent on a 4x4 grid against an exact oracle) runs as an extra and is not counted as proved.",
    technique="contract-based deductive verification: VCs from go/ssa, representation invariant as quantified macro over nested maps, z3/cvc5",
    design="5 (C03)"),
